@@ -215,3 +215,16 @@ def run(facts, rep, ctx):
     from . import round2
     round2.nc1(facts, rep)
 
+
+_run_before_round4 = run
+
+
+def run(facts, rep, ctx):
+    """rules added after the third seeding round (rules/round4.py)"""
+    _run_before_round4(facts, rep, ctx)
+    from . import round4
+    round4.tb11(facts, rep)
+    # positions are resolved through Occ::get for every sampling rate: SB-10 of C04 is part of this check
+    from . import c04
+    c04.run(facts, rep, ctx)
+
